@@ -18,6 +18,7 @@ Service exception handling (WMS exceptions, XML, in_image, etc.).
 """
 from mapproxy.exception import ExceptionHandler, XMLExceptionHandler
 from mapproxy.response import Response
+from mapproxy.image import filter_format
 from mapproxy.image.message import message_image
 from mapproxy.image.opts import ImageOptions
 import mapproxy.service
@@ -78,7 +79,10 @@ class WMSImageExceptionHandler(ExceptionHandler):
         bgcolor = WMSImageExceptionHandler._bgcolor(request.params)
         image_opts = ImageOptions(format=format, bgcolor=bgcolor, transparent=transparent)
         result = message_image(request_error.msg, size=size, image_opts=image_opts)
-        return Response(result.as_buffer(), content_type=params.format_mime_type)
+        # declare the format the image is encoded in, not the raw FORMAT parameter
+        # (the request is not validated when the exception is rendered)
+        content_type = 'image/' + filter_format(image_opts.format.ext).lower()
+        return Response(result.as_buffer(), content_type=content_type)
 
     @staticmethod
     def _bgcolor(params):
